@@ -345,7 +345,13 @@ impl Popen {
             child_state: ChildState::Preparing,
             detached: config.detached,
         };
-        inst.os_start(argv, config)?;
+        if let Err(err) = inst.os_start(argv, config) {
+            // If a child was forked it has failed to exec and is exiting.
+            // Have it reaped by drop() even if a detached Popen was asked
+            // for, otherwise it stays around as a zombie.
+            inst.detached = false;
+            return Err(err);
+        }
         Ok(inst)
     }
 
